@@ -8,6 +8,7 @@ from pv import rules_exc as RE
 prog = Program.load() if hasattr(Program, "load") else Program()
 tab = json.load(open(RE.ASSERT_TABLE))
 n = 0
+seen = {}
 for fi in prog.all_functions():
     if isinstance(fi.node, ast.Lambda):
         continue
@@ -15,7 +16,13 @@ for fi in prog.all_functions():
         if isinstance(node, ast.Assert):
             k = RE.assert_key(fi, node)
             if k in tab["asserts"]:
-                tab["asserts"][k]["expanded"] = RE.expanded_test(fi, node)
+                cur = tab["asserts"][k].get("expanded_forms", []) if seen.get(k) else []
+                seen[k] = True
+                ex = RE.expanded_test(fi, node)
+                if ex not in cur:
+                    cur.append(ex)
+                tab["asserts"][k]["expanded_forms"] = cur
+                tab["asserts"][k].pop("expanded", None)
                 n += 1
 json.dump(tab, open(RE.ASSERT_TABLE, "w"), indent=1, sort_keys=True)
 print("expanded", n, "of", len(tab["asserts"]))
